@@ -520,6 +520,13 @@ def application_variants(res, rng, n):
         if knobs:
             mm.user_defined_1 = 111
             amp.volume = 200
+            if str(tag).endswith(("1", "3", "5", "7", "9")):
+                # values as other libraries hand them over: integral numbers that are not `int` subclasses
+                try:
+                    import numpy as _np
+                    mm.user_defined_1 = _np.int64(700)          # (slot 1 stands for Amplifier.volume, minimum 0: DESIGN decision 12)
+                except ImportError:
+                    pass
         return mm
 
     def facts(mod):
@@ -527,7 +534,8 @@ def application_variants(res, rng, n):
             return ("not a MetaModule", repr(mod))
         n = mod.user_defined_controllers
         return (n, [c.label for c in mod.user_defined[:n + 1]], [(x.module, x.controller) for x in mod.mappings.values[:n + 1]],
-                len([1 for nm, c in mod.controllers.items() if c.attached(mod)]), [mod.get_raw(f"user_defined_{i + 1}") for i in range(n)],
+                len([1 for nm, c in mod.controllers.items() if c.attached(mod)]), [int(mod.get_raw(f"user_defined_{i + 1}")) for i in range(n)],
+                [int(getattr(mod, f"user_defined_{i + 1}")) for i in range(n)],
                 mod.project.name, [None if x is None else (type(x).__name__, x.name) for x in mod.project.modules],
                 mod.project.modules[1].volume if len(mod.project.modules) > 1 and mod.project.modules[1] is not None else None)
     try:
